@@ -40,10 +40,12 @@ fn process_dec(token: Token) -> Result<Expression, ParserError> {
             }
         }
         // a run of digits too long for u32 is still a (double) number
-        Err(_) => text
-            .parse::<f64>()
-            .map(Expression::DoubleLiteral)
-            .map_err(ParserError::from),
+        Err(_) => match text.parse::<f64>() {
+            // a run of digits beyond the DOUBLE range is parsed as infinity
+            Ok(f) if f.is_finite() => Ok(Expression::DoubleLiteral(f)),
+            Ok(_) => Err(ParserError::Overflow),
+            Err(err) => Err(ParserError::from(err)),
+        },
     }
 }
 
